@@ -245,7 +245,73 @@ impl Check for C13 {
                 _ => {}
             }
         }
+        // what each connection's peer advertised on the wire, as decoded by the client: per piece
+        // the virtual time it became set (a Bitfield replaces the whole set)
+        let mut adv: BTreeMap<ConnId, (Vec<Option<u64>>, u64)> = BTreeMap::new();
         for e in &v.out.entries {
+            if let Ev::Decoded { addr, frame, .. } = &e.ev {
+                let (name, nums) = norm_debug(frame);
+                if let Some(c) = v.conn_of_addr_at(addr, e.seq) {
+                    let a = adv.entry(c).or_insert_with(|| (vec![None; n], 0));
+                    if name == "Bitfield" {
+                        let bytes: Vec<u8> = nums.iter().map(|x| *x as u8).collect();
+                        let bits = bitfield_bits(&bytes, n);
+                        for (i, b) in bits.iter().enumerate() {
+                            a.0[i] = if *b { Some(a.0[i].unwrap_or(e.t_ms)) } else { None };
+                        }
+                        a.1 = e.t_ms;
+                    } else if name == "Have" && nums.len() == 1 && (nums[0] as usize) < n {
+                        let i = nums[0] as usize;
+                        if a.0[i].is_none() {
+                            a.0[i] = Some(e.t_ms);
+                        }
+                    }
+                }
+            }
+            if let Ev::Pick { snap, .. } = &e.ev {
+                // the manager's availability records must be the wire advertisements: everything a
+                // connected peer advertised before this instant counts (virtual time only moves when
+                // every task is idle, so an announcement decoded earlier has been handled), and
+                // nothing else does
+                for p in &snap.peers {
+                    let c = match v.live_conn_of_addr_at(&p.addr, e.seq) {
+                        Some(c) => c,
+                        None => continue,
+                    };
+                    let (w, last_bitfield) = match adv.get(&c) {
+                        Some(a) => (a.0.clone(), a.1),
+                        None => (vec![None; n], 0),
+                    };
+                    if last_bitfield == e.t_ms && last_bitfield != 0 {
+                        continue;
+                    }
+                    for x in 0..n {
+                        if snap.status.get(x) == Some(&-1) {
+                            continue;
+                        }
+                        let rec = p.pieces.get(x).cloned().unwrap_or(false);
+                        match w[x] {
+                            Some(t) if t < e.t_ms && !rec => {
+                                vd.fail(
+                                    "C13",
+                                    "C13.advertisement-not-counted",
+                                    format!("{} advertised piece {} at t={} ms (the client lacks it), but at the pick at t={} ms it is not counted for that peer", p.addr, x, t, e.t_ms),
+                                    e.seq,
+                                );
+                            }
+                            None if rec => {
+                                vd.fail(
+                                    "C13",
+                                    "C13.counted-unadvertised",
+                                    format!("piece {} is counted as available from {} which never advertised it", x, p.addr),
+                                    e.seq,
+                                );
+                            }
+                            _ => {}
+                        }
+                    }
+                }
+            }
             if let Ev::Pick { addr, chosen, snap } = &e.ev {
                 vd.probe("picks");
                 let me = match snap.peers.iter().find(|p| &p.addr == addr) {
